@@ -39,6 +39,15 @@ Theorem C03_segments_pipeline : forall (src tgt D : Type) (dist : tgt -> src -> 
 Proof. intros. rewrite segments_invariant. reflexivity. Qed.
 Print Assumptions C03_segments_pipeline.
 
+(* ---- history on the target object: after get_lonlats(cache=True) every segment reads its rows from the stored grid
+   instead of computing them; for ONE pointwise coordinate function both give the same rows, so the segmented query sees the
+   same targets.  (The hypothesis fails for float32 sources: the stored grid is float64, the computed rows float32 -
+   known finding C03.cached_lonlats.float32_source.) *)
+Theorem C03_cached_lonlats : forall (P C : Type) (coord : P -> C) (s : pslice) (g : list (list P)),
+  rows_of s (map (map coord) g) = map coord (rows_of s g).
+Proof. intros P C. exact (@cached_rows_equal P C). Qed.
+Print Assumptions C03_cached_lonlats.
+
 (* ---- nprocs: whatever slices the scheduler hands out, to whichever worker and in whatever order, as long as together
    they tile [0, n) (C15: the scheduler's slices do), out[s] = f(x[s]) for each of them leaves out = map f x,
    independent of the initial content of the shared array. *)
@@ -173,6 +182,11 @@ Theorem C03_boundary_step_generated : forall (T : Type) (OP : ops T) prev lon an
      (if ReduceMask.truthy OP prev then add OP side_sum (wrap_delta OP lon prev) else side_sum), lon).
 Proof. intros T OP. exact (gen_boundary_step_char OP). Qed.
 Print Assumptions C03_boundary_step_generated.
+Theorem C03_no_pole_mask_generated : forall (T : Type) (OP : ops T) (pymod : T -> T -> T) lon lat lo hi a b s2min s4max,
+  gen_no_pole_mask OP lon lat lo hi a b s2min s4max
+  = keep OP pymod (mk_win 2 lo hi (if ltb OP s4max s2min then 0 else 1) a b) (lon, lat).
+Proof. intros T OP. exact (gen_no_pole_mask_char OP). Qed.
+Print Assumptions C03_no_pole_mask_generated.
 Theorem C03_winding_sum_generated : forall (T : Type) (OP : ops T) (s : sides),
   fst (fst (angle_loop OP (ReduceMask.truthy OP) s))
   = gen_side_sum OP (lo4 s) None (gen_side_sum OP (lo3 s) None (gen_side_sum OP (lo2 s) None (gen_side_sum OP (lo1 s) None (cz OP 0)))).
